@@ -311,6 +311,11 @@ for _n, _b in [("timestamp", "8 symbolic bytes, any prefix length"), ("node_id",
     _c13h.append(H(f"c13_decode_{_n}", "node", "wire::verif_kani::c13", "wire_c13", tiers=Q, covers=1, stubs=_OID,
         functions=[f"<{_n} as wire::Decode>::decode"], bounds=_b + ": no panic / overflow / out-of-bounds / failed assert"))
 _c15h = []
+for _n in ["c15_address_ipv4", "c15_address_ipv6", "c15_address_dns1", "c15_address_dns2", "c15_address_unknown"]:
+    _c15h.append(H(_n, "node", "wire::verif_kani::c15", "wire_c15", tiers=Q, covers=1, stubs=[],
+        functions=["wire::deserialize::<Address>", "<Address as wire::Decode>::decode", "<Address as wire::Encode>::encode", "<String as wire::Decode>::decode"],
+        bounds=f"layout {_n}: address type tag and host-name length literal, host bytes and port symbolic: address bytes that decode re-encode to exactly the same bytes"))
+    _c13h.append(_c15h[-1])
 for _n in ["c15_ping_z0", "c15_ping_z1", "c15_ping_z3", "c15_pong_z0", "c15_pong_z2", "c15_pong_trailing", "c15_unknown_type"] + [l[0] for l in _gw.LAYOUTS]:
     h = H(_n, "node", "wire::verif_kani::c15", "wire_c15", tiers=Q, covers=1, stubs=_OID,
           functions=["wire::deserialize::<Message>", "<Message as wire::Decode>::decode", "<Message as wire::Encode>::encode"],
